@@ -40,9 +40,9 @@ theorem GeomInv.withDummyCur (h : GeomInv cfg s) {k : Cur} (hk : ∀ i, k ≠ .c
 /-- move the position of chunk `i` and make it the current chunk -/
 theorem GeomInv.setPosCur (h : GeomInv cfg s) {i p : Nat} {c : Chunk} (hi : s.chunks[i]? = some c)
     (h1 : c.contentStart cfg ≤ p) (h2 : p ≤ c.contentEnd cfg) (h3 : s.minAlign ∣ p) :
-    GeomInv cfg { setPos s i p with cur := .chunk i } := by
+    GeomInv cfg { Arena.setPos s i p with cur := .chunk i } := by
   have h' := h.setPos hi h1 h2 (fun _ => h3)
-  have hi' : (setPos s i p).chunks[i]? = some { c with pos := p } := by
+  have hi' : (Arena.setPos s i p).chunks[i]? = some { c with pos := p } := by
     rw [setPos_getElem?, if_pos rfl, hi]; rfl
   exact h'.withCur hi' h3
 
@@ -72,7 +72,7 @@ theorem deallocAssumeLast_ok (hc : CfgOK cfg) (h : GeomInv cfg s) {ptr size : Na
       (cfg.deallocates = false → s' = s) := by
   unfold deallocAssumeLast
   cases hde : cfg.deallocates
-  · exact ⟨s, rfl, h, SameShape.refl _, rfl, rfl, rfl, fun hx => by cases hx, fun _ => rfl⟩
+  · exact ⟨s, rfl, h, SameShape.refl _, rfl, rfl, rfl, fun hx => (by cases hx), fun _ => rfl⟩
   · obtain ⟨i, c, hcur, hi, hb1, hb2, hb3⟩ := hb
     have hw := h.chunks i c hi
     simp only [Bool.not_true, Bool.false_eq_true, ↓reduceIte, hcur]
@@ -83,8 +83,8 @@ theorem deallocAssumeLast_ok (hc : CfgOK cfg) (h : GeomInv cfg s) {ptr size : Na
     have hmem := hw.alignPos_mem hc h.minAlign ht1 ht2
     rw [if_neg hnot]
     simp only [r_pure, r_ok_bind, hw.align_pos_eq hc h.minAlign ht2, liftM_ok]
-    refine ⟨_, rfl, h.setCurPos hcur hi hmem.1 hmem.2 (alignPos_dvd _ _ _), setCurPos_shape _ _, setCurPos_cur _ _,
-      setCurPos_minAlign _ _, setCurPos_resps _ _, fun _ => rfl, fun hx => by cases hx⟩
+    refine ⟨_, rfl, h.setCurPos hcur hi hmem.1 hmem.2 (alignPos_dvd _ _ _), setCurPos_shape _ _, (setCurPos_cur _ _).trans hcur,
+      setCurPos_minAlign _ _, setCurPos_resps _ _, fun _ => rfl, fun hx => (by cases hx)⟩
 
 theorem deallocate_ok (hc : CfgOK cfg) (h : GeomInv cfg s) {ptr size : Nat}
     (hb : isLast cfg s ptr size = true → BlockInCur cfg s ptr size) :
@@ -156,7 +156,17 @@ theorem reset_inv (hc : CfgOK cfg) (h : GeomInv cfg s) : GeomInv cfg (reset cfg 
         exact ⟨_, rfl, h.minAlign.dvd_of_16 (resetPos_pos16 hc hw)⟩
   · exact h
 
-theorem reset_sizesIncreasing (s : State) : SizesIncreasing (reset cfg s) → True := fun _ => trivial
+theorem reset_sizesIncreasing (hs : SizesIncreasing s) : SizesIncreasing (reset cfg s) := by
+  unfold reset
+  split
+  · split
+    · exact hs
+    · intro j a b ha hb
+      simp at hb
+  · exact hs
+
+theorem resetToStart_sizesIncreasing (hs : SizesIncreasing s) : SizesIncreasing (resetToStart cfg s) :=
+  (resetToStart_shape s).sizesIncreasing hs
 
 theorem resetTo_ok (hc : CfgOK cfg) (h : GeomInv cfg s) {cp : Checkpoint} (hcp : CheckpointOK cfg s cp) :
     ∃ s', resetTo cfg s cp = .ok s' ∧ GeomInv cfg s' ∧ SameShape s s' ∧ s'.minAlign = s.minAlign ∧ s'.resps = s.resps ∧
@@ -179,7 +189,7 @@ theorem resetTo_ok (hc : CfgOK cfg) (h : GeomInv cfg s) {cp : Checkpoint} (hcp :
     rw [hk] at hcp
     obtain ⟨c, hi, h1, h2⟩ := hcp
     have hw := h.chunks i c hi
-    have hne : (Cur.chunk i == Cur.unallocated) = false := by decide
+    have hne : (Cur.chunk i == Cur.unallocated) = false := by simp
     simp only [hne, Bool.and_false, Bool.false_eq_true, ↓reduceIte, hi, h1, h2, and_self]
     simp only [r_pure, r_ok_bind, hw.align_pos_eq hc h.minAlign h2, liftM_ok]
     have hmem := hw.alignPos_mem hc h.minAlign h1 h2
@@ -211,7 +221,7 @@ theorem alignTo_ok (hc : CfgOK cfg) (h : GeomInv cfg s) {n : Nat} (hn : MinAlign
       have hdn : s.minAlign ∣ n := h.minAlign.p2.dvd_of_le hn.p2 (Nat.le_of_lt hgt)
       have hd1 : s.minAlign ∣ alignPos cfg.up n c.pos := Nat.dvd_trans hdn (alignPos_dvd _ _ _)
       have h' := h.setPos hi hmem.1 hmem.2 (fun _ => hd1)
-      refine ⟨_, rfl, h', ?_, setPos_shape _ _ _, rfl, rfl, rfl, ?_⟩
+      refine ⟨_, rfl, h', ?_, setPos_shape _ _ _, hcur, rfl, rfl, ?_⟩
       · apply h'.withMinAlign hn
         intro j d hj hdj
         rw [setPos_cur, hcur] at hj
@@ -266,7 +276,7 @@ theorem alignGuardDrop_ok (hc : CfgOK cfg) (h : GeomInv cfg s) {outer : Nat} (hn
       · exact Nat.dvd_trans hx (alignPos_dvd _ _ _)
       · rw [alignPos_eq_self hn.pos (Nat.dvd_trans hx hd)]; exact hd
     have h' := h.setPos hi hmem.1 hmem.2 (fun _ => hd1)
-    refine ⟨_, rfl, h', ?_, setPos_shape _ _ _, rfl, rfl, rfl, ?_⟩
+    refine ⟨_, rfl, h', ?_, setPos_shape _ _ _, hcur, rfl, rfl, ?_⟩
     · apply h'.withMinAlign hn
       intro j d hj hdj
       rw [setPos_cur, hcur] at hj
